@@ -189,13 +189,23 @@ def run_check(prop, tier, base_seed, runs_override=None, workers=None):
             trace, flaky = amp, True
         small = trace if flaky else m.shrink(trace, prop, r0.violation.clause)
         r1 = m.replay(small, prop, keep_log=True)
-        if r1.violation is None and flaky:
-            for _ in range(6):
-                r1 = m.replay(small, prop, keep_log=True)
+        if r1.violation is None:
+            # either the history was amplified (flaky by nature) or the shrinker was misled by a predicate that does
+            # not always fail: go back to the unshrunk (if necessary amplified) history and retry
+            flaky = True
+            for cand in (small, trace, m.amplify(trace, prop) if hasattr(m, 'amplify') else None):
+                if cand is None:
+                    continue
+                for _ in range(6):
+                    r1 = m.replay(cand, prop, keep_log=True)
+                    if r1.violation is not None:
+                        break
                 if r1.violation is not None:
+                    small = cand
                     break
         if r1.violation is None:
-            raise core.HarnessError(f'seed {seed}: shrunk trace does not fail')
+            unreproducible.append((sig, seed))
+            continue
         msig = r1.violation.sig
         if kf.match(prop, msig) or kf.match(prop, sig):
             if msig not in known_hit and sig not in known_hit:
@@ -218,7 +228,9 @@ def run_check(prop, tier, base_seed, runs_override=None, workers=None):
                     break
                 fr = fresh_replay(path, prop)
             if fr['violation'] is None or fr['violation']['clause'] != r1.violation.clause:
-                raise core.HarnessError(f'replay {path} (nondeterministic code under test) did not reproduce: {fr}')
+                # seen by a worker and again in this process, but not in 6 fresh interpreters: still a violation of
+                # the code under test (its result varies between executions); the replay file is probabilistic
+                out_lines.append(f'  note: {path} reproduces only with some probability (result of the code under test varies between executions)')
         elif fr['violation'] is None or fr['violation']['clause'] != r1.violation.clause or fr['digest'] != r1.log.digest():
             raise core.HarnessError(f'replay {path} did not reproduce identically in a fresh interpreter: {fr}')
         out_lines.append(f'VIOLATION property={prop} replay={path}')
